@@ -63,7 +63,7 @@ class Cond:
         body = self.body
         if depth > 6:
             return
-        o = body.origin(op, through_calls=False)
+        o = body.origin_at(op, self.bb, through_calls=False) if depth == 0 and body.fn.get("flat") else body.origin(op, through_calls=False)
         if o[0] == "rv":
             rv = o[2]["rv"]
             if rv["k"] == "bin" and rv["op"] in SWAP:
